@@ -8,6 +8,7 @@ import (
 	"hash/fnv"
 	"os"
 	"sort"
+	"strings"
 	"time"
 )
 
@@ -266,13 +267,26 @@ func (k *KnownFindings) Match(v Violation) string {
 	return ""
 }
 
-// assertMatch compares assertion ids; a listed id may end in "*" to cover the
-// readers of one fact (value/row-reader, value/txn-reader, value/any).
+// assertMatch compares assertion ids; a listed id may contain "*" wildcards to cover
+// the several readers of one fact (value/row-reader, value/txn-reader, value/any) or
+// the copies it is observed on (@replica, @restored...).
 func assertMatch(pat, a string) bool {
-	if n := len(pat); n > 0 && pat[n-1] == '*' {
-		return len(a) >= n-1 && a[:n-1] == pat[:n-1]
+	parts := strings.Split(pat, "*")
+	if len(parts) == 1 {
+		return pat == a
 	}
-	return pat == a
+	if !strings.HasPrefix(a, parts[0]) {
+		return false
+	}
+	a = a[len(parts[0]):]
+	for i := 1; i < len(parts)-1; i++ {
+		j := strings.Index(a, parts[i])
+		if j < 0 {
+			return false
+		}
+		a = a[j+len(parts[i]):]
+	}
+	return strings.HasSuffix(a, parts[len(parts)-1])
 }
 
 func (k *KnownFindings) ByID(id string) *Finding {
